@@ -57,11 +57,12 @@ DoSort == StepOf("sort")          DoTake == StepOf("take")
 DoAggregate == StepOf("aggregate") DoGroup == StepOf("group")
 DoWindow == StepOf("window")      DoJoin == StepOf("join")
 DoAppend == StepOf("append")
+DoExclude == StepOf("exclude")
 \* SurplusArg / UnknownNamedArg / ScalarAsRelation / RelationAsScalar
 DoBad == StepOf("bad")
 
 Verdict(ok, skip, what) ==
-  /\ IF skip THEN nskip' = nskip + 1 /\ UNCHANGED <<nacc, nrej>>
+  /\ IF skip THEN nskip' = nskip + 1 /\ UNCHANGED <<nacc, nrej>> /\ PrintT(<<"SKIPPED", cur>>)
      ELSE IF ok THEN nacc' = nacc + 1 /\ UNCHANGED <<nskip, nrej>>
      ELSE /\ nrej' = nrej + 1 /\ UNCHANGED <<nskip, nacc>>
           /\ PrintT(<<"REJECT", cur, what, l, ToJson([i \in Idx(st.frame) |-> st.frame[i].name]),
@@ -100,7 +101,7 @@ Failure ==
 
 TNext == \/ Database \/ Reset \/ DeclLet \/ DeclFunc
          \/ DoFrom \/ DoSelect \/ DoDerive \/ DoFilter \/ DoSort \/ DoTake
-         \/ DoAggregate \/ DoGroup \/ DoWindow \/ DoJoin \/ DoAppend \/ DoBad
+         \/ DoAggregate \/ DoGroup \/ DoWindow \/ DoJoin \/ DoAppend \/ DoExclude \/ DoBad
          \/ Observe \/ CompileError \/ Failure
 
 TraceSpec == TInit /\ [][TNext]_vars
